@@ -64,6 +64,49 @@ class Session:
 S = Session()
 
 
+class OneShot:
+    """Stand-in for a one-shot iterable argument (generator, iterator, map object).
+
+    The monitors need to know what the caller handed over, the real function must still receive something that can be
+    walked only once.  `items` is for the monitors; iteration consumes.
+    """
+
+    def __init__(self, items):
+        self.items = list(items)
+        self._it = iter(self.items)
+
+    def __iter__(self):
+        return self._it
+
+    def __next__(self):
+        return next(self._it)
+
+
+def one_shot_or_list(x, keep=(list, tuple)):
+    """Guard an iterable argument: one-shot iterators become OneShot (still one-shot for the callee, readable by the
+    monitors); everything re-iterable - lists, sets, dict views, arrays, pandas Series - is handed over untouched."""
+    if isinstance(x, keep) or isinstance(x, OneShot):
+        return x
+    try:
+        if iter(x) is x:
+            return OneShot(x)
+    except TypeError:
+        pass
+    return x
+
+
+def items_of(x):
+    """What the caller handed over, as the monitor may read it (never consumes a one-shot iterable)."""
+    if isinstance(x, OneShot):
+        return x.items
+    if x is None or isinstance(x, (list, tuple, set, frozenset, str)):
+        return x
+    try:
+        return list(x)
+    except TypeError:
+        return x
+
+
 class monitor_mode:
     """Context manager: code inside runs the real functions without being monitored."""
 
